@@ -625,9 +625,11 @@ package tree
 //@   call (*github.com/fredericlemoine/bitset.BitSet).Set [the_tip_s_bit_is_set_in_every_branch_of_the_path] a0 == (*rightEdges)[rangeindex + 1].bitset && a1 == i && len(currentEdge.right.neigh) == 1
 //@   call (*tree.Tree).fillRightBitSet [descends_through_every_branch_leaving_the_lower_end_after_adding_it_to_the_path] a1 == e2 && e2.left == currentEdge.right && a2 == rightEdges && len(*rightEdges) >= 1 && (*rightEdges)[len(*rightEdges) - 1] == e2
 //@   ensures [the_path_is_restored] result == nil ==> len(*rightEdges) == old(len(*rightEdges))
+//@   ensures [the_path_stays_in_the_caller_s_storage_or_in_storage_allocated_by_the_walk] arr(*rightEdges) == old(arr(*rightEdges)) || fresh_arr(*rightEdges)
 //@   loop 2
 //@     complete [all_iterations_no_early_exit]
 //@     invariant [path_length_restored_after_each_child] len(*rightEdges) == old(len(*rightEdges)) && rightEdges != nil && t != nil && currentEdge != nil && currentEdge.right != nil
+//@     invariant [path_storage] arr(*rightEdges) == old(arr(*rightEdges)) || fresh_arr(*rightEdges)
 //@   loop 1
 //@     complete [all_iterations_no_early_exit]
 
@@ -635,8 +637,10 @@ package tree
 //@   flag noframe
 //@   requires t != nil && t.root != nil
 //@   call (*tree.Tree).fillRightBitSet [every_root_branch_starts_a_path_of_its_own] a1 == e && len(rightedges) == 1 && rightedges[0] == e
+//@   call (*tree.Tree).fillRightBitSet [the_path_is_scratch_storage_allocated_by_this_very_call_never_shared_between_calls] fresh_arr(rightedges)
 //@   loop 1
 //@     complete [all_iterations_no_early_exit]
+//@     invariant [scratch_of_this_call] fresh_arr(rightedges)
 
 // ClearBitSets / clearBitSetsRecur (property C04): every branch below the starting node gets a bitset of its own,
 // created for the current number of indexed tips, and zeroed hash sums, before the walk descends through it
@@ -1186,6 +1190,7 @@ package tree
 //@   call tree.newNNI [the_plain_exchange_first_then_the_crossed_one] a3 == (ghost(ncalls_newNNI) - atHead(ghost(ncalls_newNNI)) == 1)
 //@   return@L0 [unless_the_callback_stops_it_the_enumeration_ends_only_after_the_loop_over_all_branches_of_this_tree] ghost(entered_L1) == old(ghost(entered_L1)) + 1 && ghost(ncalls_Edges) == old(ghost(ncalls_Edges)) + 1
 //@   call (*tree.Tree).Edges [the_branches_of_this_tree] a0 == t
+//@   call (*tree.Tree).Edges [the_tree_is_enumerated_as_it_was_given_its_root_is_where_it_was] t.root == old(t.root)
 //@   loop 1
 //@     complete [all_iterations_no_early_exit]
 //@     step [two_moves_per_eligible_branch_none_otherwise_unless_stopped] (deg(e.left) == 3 && deg(e.right) == 3 ? ghost(fncalls_f) >= atHead(ghost(fncalls_f)) + 1 && ghost(fncalls_f) <= atHead(ghost(fncalls_f)) + 2 : ghost(fncalls_f) == atHead(ghost(fncalls_f)))
